@@ -1,6 +1,16 @@
 (* Once.v — model of dispatch_once_f / _dispatch_once_wait / _dispatch_once_gate_broadcast
-   (src/once.c, src/shims/lock.h:676-700, src/shims/lock.c:657-710) for any number of threads.
-   The rmw-loop body, its memory order and the constants come from Gen_once (regenerated from the source). *)
+   (src/once.c, src/shims/lock.h:676-700, src/shims/lock.c:657-710) for any number of threads, and of the inline fast path
+   of dispatch/once.h (_dispatch_once / _dispatch_once_f: a plain read of the predicate, ~0l means done, return through
+   dispatch_compiler_barrier without calling the library).
+   The rmw-loop body, its memory order and the constants come from Gen_once (regenerated from the source).
+   NOT modelled (one predicate, the initialiser is a black box between its begin and end marks):
+   - an initialiser that calls dispatch_once again: on ANOTHER predicate that is an independent instance of this model; on the
+     SAME predicate the library crashes (_dispatch_once_wait: DISPATCH_CLIENT_CRASH "trying to lock recursively", lock.c) -
+     a thread inside the initialiser (PInCall) accepts only the end mark, so the model has no such run (client obligation);
+   - the second crash path, _dispatch_gate_broadcast_slow "lock not owned by current thread" (a corrupted gate word): the word
+     at the exchange of _dispatch_once_mark_done is the owner's value, with or without the waiters bit
+     (Once_proofs.mark_word_is_owners), so the path is unreachable in the model; a predicate overwritten by the client is
+     outside it. *)
 From Coq Require Import ZArith Bool List.
 From Verif Require Import Word Conc Gen_consts Gen_once.
 Import ListNotations.
@@ -8,12 +18,16 @@ Local Open Scope Z_scope.
 
 Definition DONE := DLOCK_ONCE_DONE.
 Definition WAITERS := DLOCK_WAITERS_BIT.
+Definition MO_PLAIN := -1.      (* a non-atomic read: not seen by the hook *)
+Definition CALL_INLINE := 1.    (* argument of the call mark: through the inline wrapper of dispatch/once.h *)
 Definition mo_code (o : morder) : Z :=
   match o with Relaxed => 0 | Consume => 1 | Acquire => 2 | Release => 3 | AcqRel => 4 | SeqCst => 5 end.
 
 (* program points of one thread inside dispatch_once_f *)
 Inductive pc :=
 | PIdle                (* not in a call *)
+| PFast                (* inside the inline wrapper _dispatch_once_f of dispatch/once.h: the plain read of *predicate next *)
+| PFRet                (* the read saw ~0l: return without calling the library (dispatch_compiler_barrier) *)
 | PTry                 (* dispatch_once_f entered: _dispatch_once_gate_tryenter next *)
 | PCall                (* won the gate: _dispatch_client_callout next *)
 | PInCall              (* inside the initialiser *)
@@ -30,7 +44,9 @@ Inductive pc :=
    it the per-thread event traces recorded from the real library. *)
 Definition tstep (self : Z) (p : pc) (e : event) : option pc :=
   match p with
-  | PIdle => if ev_kind e DVU_CALL then Some PTry else None
+  | PIdle => if ev_kind e DVU_CALL then Some (if ea e =? CALL_INLINE then PFast else PTry) else None
+  | PFast => if ev_is e DV_LOAD MO_PLAIN 0 then Some (if ea e =? DONE then PFRet else PTry) else None
+  | PFRet => if ev_kind e DVU_RET then Some PIdle else None
   | PTry => if ev_is e DV_CAS MO_RELAXED 0 && (eb e =? self)
             then Some (if eok e =? 1 then PCall else PWLoad) else None
   | PCall => if ev_kind e DVU_CALLOUT_BEGIN then Some PInCall else None
@@ -117,6 +133,8 @@ Definition gstep (s : gst) (t : Z) (e : event) : option gst :=
              (finished s) (early_ret s)
     | PWSleep => base (word s) (upd (slp s) t Awake) (owner s) (starts s) (finished s) (early_ret s)
     | PIdle => base (word s) (slp s) (owner s) (starts s) (finished s) (early_ret s)
+    | PFast => if ea e =? word s then base (word s) (slp s) (owner s) (starts s) (finished s) (early_ret s) else None
+    | PFRet => base (word s) (slp s) (owner s) (starts s) (finished s) (early_ret s || negb (finished s))
     end
   end.
 
@@ -134,8 +152,18 @@ Fixpoint grun (s : gst) (tr : list (Z * event)) : option gst :=
   | (t, e) :: tr' => match gstep s t e with Some s' => grun s' tr' | None => None end
   end.
 
+(* the plain read of the inline wrapper is not seen by the hook: the recorded trace continues with the return mark (the read
+   saw ~0l) or with the first atomic operation of the library call (it saw something else).  tstep_vis = tstep closed under
+   that one hidden step (Once_proofs.tstep_vis_sound) *)
+Definition ev_plain_load (v : Z) : event := mkEv DV_LOAD MO_PLAIN 0 0 8 v v 1.
+Definition tstep_vis (self : Z) (p : pc) (e : event) : option pc :=
+  match p with
+  | PFast => if ev_kind e DVU_RET then tstep self PFRet e else tstep self PTry e
+  | _ => tstep self p e
+  end.
+
 (* for the correspondence driver: run one recorded per-thread trace; result (index of the first rejected event or
    -1, 1 if the thread ended outside any call) *)
 Definition pc_idle (p : pc) : Z := match p with PIdle => 1 | _ => 0 end.
 Definition conform (self : Z) (tr : list event) : Z * Z :=
-  let '(p, i) := run_trace (tstep self) PIdle tr 0 in (i, pc_idle p).
+  let '(p, i) := run_trace (tstep_vis self) PIdle tr 0 in (i, pc_idle p).
